@@ -364,4 +364,14 @@ def label_is_ctx_label(a, W, lab, ctx, ix, f):
     if L == 0:
         return True
     base = lab[1]
-    return base.root == root and W.store.entails_eq(lab[2], Lin.c(0))
+    if not W.store.entails_eq(lab[2], Lin.c(0)):
+        return False
+    if base.root == root:
+        return True
+    # the bytes of a copy of the label (`Label` is Copy: a helper enum holding it, a by-value argument): the payload array of
+    # the copy is the very value of the context's - unknown bytes carry the identity of the object they were read from
+    try:
+        arrv = a.I.read(W.fork(), base)
+    except Exception:
+        return False
+    return bool(lv[1][0][1]) and arrv == lv[1][0][1][0] and arrv[0] == 'arr' and arrv[2][0] in ('unknown', 'bytes_of')
